@@ -305,3 +305,39 @@ Theorem C04_a_unit_property_number_resolves_to_equal_properties_after_reload :
                                  c_idx := Some i |}.
 Proof. exact cuwp_number_resolves_after_reload. Qed.
 Print Assumptions C04_a_unit_property_number_resolves_to_equal_properties_after_reload.
+
+(* the general form of the read-back theorem: an authored action written under the SAVE's context cx is read, under ANY later
+   context cx' (in particular the one a load of the saved map builds), as the same type with the same flags, every argument being
+   related by R to the authored one whenever the caller shows that for the codecs in play - which the END-TO-END theorems above
+   do for strings (C04_the_reload_reads_strings_through_the_saved_table), locations and unit-property sets *)
+Theorem C04_an_authored_action_is_read_back_by_a_later_context :
+  forall cx cx' (R : rarg -> rarg -> Prop) key args fl v,
+    encode_entry_of cx gen_action_table action_flags_codec action_record_fields (ERich key args fl) = Ok v ->
+    length fl = 5%nat ->
+    (forall te a c f x n, find_entry key gen_action_table = Some te -> In (a, c, f) (te_dec te) -> arg_get rarg a args = Ok x ->
+       enc_arg cx c x = Ok n -> exists x', dec_arg cx' c n = Ok x' /\ R x x') ->
+    exists te args',
+      find_entry key gen_action_table = Some te /\
+      decode_entry_of cx' gen_action_table "TriggerActionId" "_action_id" action_flags_codec action_record_fields v
+        = Ok (Some (ERich key args' fl)) /\
+      forall a c f, In (a, c, f) (te_dec te) ->
+        exists x', arg_get rarg a args' = Ok x' /\
+          ((exists x, arg_get rarg a args = Ok x /\ R x x') \/ (exists d, wav_duration cx args = Ok d /\ x' = AInt d)).
+Proof. exact authored_action_reads_back_later. Qed.
+Print Assumptions C04_an_authored_action_is_read_back_by_a_later_context.
+
+Theorem C04_an_authored_condition_is_read_back_by_a_later_context :
+  forall cx cx' (R : rarg -> rarg -> Prop) key args fl v,
+    encode_entry_of cx gen_condition_table condition_flags_codec condition_record_fields (ERich key args fl) = Ok v ->
+    length fl = 5%nat ->
+    (forall te a c f x n, find_entry key gen_condition_table = Some te -> In (a, c, f) (te_dec te) -> arg_get rarg a args = Ok x ->
+       enc_arg cx c x = Ok n -> exists x', dec_arg cx' c n = Ok x' /\ R x x') ->
+    exists te args',
+      find_entry key gen_condition_table = Some te /\
+      decode_entry_of cx' gen_condition_table "TriggerConditionId" "_condition_id" condition_flags_codec condition_record_fields v
+        = Ok (Some (ERich key args' fl)) /\
+      forall a c f, In (a, c, f) (te_dec te) ->
+        exists x', arg_get rarg a args' = Ok x' /\
+          ((exists x, arg_get rarg a args = Ok x /\ R x x') \/ (exists d, wav_duration cx args = Ok d /\ x' = AInt d)).
+Proof. exact authored_condition_reads_back_later. Qed.
+Print Assumptions C04_an_authored_condition_is_read_back_by_a_later_context.
